@@ -211,6 +211,81 @@ def run_C05(run):
     run.race(6 if q else 60, goroutines=8)
 
 
+CACHE_KEYS = {"k1", "k2", "k3", "k4", "bad"}
+
+
+def describe_cache(run_rec, rj, line, stage):
+    evs = run_rec.get("evs") or run_rec.get("calls") or []
+    upto = evs[:rj["i"]] if rj["i"] else evs[:8]
+    return {"stage": stage, "flow": "B", "line": line, "kind": run_rec["k"], "expr": "cache cap=%s via=%s" % (run_rec["cap"], run_rec.get("via", "goroutines")),
+            "ctx": 0, "fail": rj["fail"], "via": run_rec.get("via", "concurrent"), "want": "AbstractCache (XCacheBatch.tla)",
+            "got": {"events": upto, "samples": run_rec.get("samples", [])[:20]}, "case": {"cap": run_rec["cap"], "keys": [e["key"] for e in evs][:40]}}
+
+
+def run_C16(run):
+    q = run.tier == "quick"
+    import subprocess
+    # (1) the implementation-shaped model of loadingCache.get: all interleavings at lock-step granularity
+    for cap in ((1, 2) if q else (0, 1, 2, 3)):
+        run.tlc("XCache", {"Keys": {"k1", "k2", "k3", "bad"}, "BadKeys": {"bad"}, "Cap": cap, "Procs": {1, 2} if q else {1, 2, 3},
+                           "MaxGets": 4 if q else 5, "EvictAt": "ge"},
+                invariants=("MutualExclusion", "AccessUnderLock", "CapBound", "NoBadKey", "Exact", "ReturnsRequested", "BadNeverHit"),
+                properties=("AbstractStep",), name="cache-impl-cap%d" % cap, out=False)
+    # (1b) model sensitivity: the off-by-one eviction mutant is refuted by TLC
+    r = run.tlc("XCache", {"Keys": {"k1", "k2", "k3", "bad"}, "BadKeys": {"bad"}, "Cap": 2, "Procs": {1}, "MaxGets": 4, "EvictAt": "gt"},
+                invariants=("CapBound",), name="cache-impl-mutant", out=False, allow_violation=True)
+    if "Invariant CapBound is violated" not in r["log"]:
+        raise ToolingError("XCache does not refute the off-by-one eviction: vacuous model")
+    # (2) every key sequence x capacity on a REAL cache (through the hook and through matches() with a
+    #     client-installed RegexpCache); recorded runs validated against AbstractCache
+    cb = {"Keys": {"k1", "k2", "k3", "bad"}, "BadKeys": {"bad"}, "Caps": {0, 1, 2, 3}, "MaxLen": 5 if q else 7, "Chunk": 64}
+    g = run.tlc("XCacheBatch", dict(cb, Mode="gen"), invariants=("EmitSeq",), name="cache-seqs-gen")
+    run.nstage += 1
+    trace = os.path.join(run.work, "%02d-cache.trace.ndjson" % run.nstage)
+    p = subprocess.run([run.xvh, "cache", "-in", g["outfile"], "-out", trace], capture_output=True, text=True)
+    if p.returncode != 0:
+        raise ToolingError("cache driver failed: %s%s" % (p.stdout, p.stderr))
+    run.log(p.stdout.strip())
+    run.evaluations += sum(line.count('"key"') for line in open(trace))
+    run.validate_lines(trace, "cache-seqs", "XCacheBatch", dict(cb, Mode="validate", Keys=CACHE_KEYS), describe_cache)
+    # (3) goroutines on one cache under the race detector; calls stamped with a logical clock
+    binary = run.build(race=True)
+    run.nstage += 1
+    ctrace = os.path.join(run.work, "%02d-cacheconc.trace.ndjson" % run.nstage)
+    p = subprocess.run([binary, "cacheconc", "-seed", str(run.seed), "-runs", "40" if q else "400", "-out", ctrace],
+                       capture_output=True, text=True)
+    if p.returncode not in (0, 66):
+        raise ToolingError("cacheconc driver failed (%d): %s%s" % (p.returncode, p.stdout, p.stderr[-2000:]))
+    run.log(p.stdout.strip())
+    if "WARNING: DATA RACE" in p.stderr:
+        rep = p.stderr.split("WARNING: DATA RACE")[1]
+        if "antchfx/xpath" in rep:
+            run.mismatches.append({"stage": "cache-conc", "flow": "B", "kind": "race", "expr": "data race in the cache", "ctx": 0,
+                                   "fail": "data-race", "via": "go -race", "want": "none", "got": {"report": rep[:1500]}, "case": {}})
+    run.evaluations += sum(line.count('"key"') for line in open(ctrace))
+    run.validate_lines(ctrace, "cache-conc", "XCacheBatch", dict(cb, Mode="validate", Keys=CACHE_KEYS), describe_cache)
+    # (4) matches()/replace(): template rewriting specified in XRegex.tla, Go's regexp as environment oracle
+    g = run.tlc("XRegex", {}, invariants=("Emit", "RewriteSanity"), name="regex-gen")
+    mm = g["outfile"] + ".mismatch"
+    st = g["outfile"] + ".stats"
+    p = subprocess.run([run.xvh, "regex", "-in", g["outfile"], "-out", mm, "-stats", st], capture_output=True, text=True)
+    if p.returncode != 0:
+        raise ToolingError("regex replay failed: %s%s" % (p.stdout, p.stderr))
+    run.log(p.stdout.strip())
+    stats = json.load(open(st))
+    run.traces += stats["cases"]
+    run.evaluations += stats["evaluations"]
+    run.distinct_nt = getattr(run, "distinct_nt", 0) + stats["distinct_nontrivial"]
+    run.samples += stats["samples"][:2]
+    run.stages.append({"stage": "regex", "flow": "A", "cases": stats["cases"], "evaluations": stats["evaluations"],
+                       "distinct_nontrivial": stats["distinct_nontrivial"], "mismatches": stats["mismatches"]})
+    for line in open(mm):
+        m = json.loads(line)
+        m["stage"] = "regex"
+        m["flow"] = "B"   # re-confirmation is done by the same deterministic replay
+        run.mismatches.append(m)
+
+
 def run_C12(run):
     q = run.tier == "quick"
     # flat paths: exact document order; every node-set expression: protocol
@@ -273,6 +348,7 @@ PROPS = {
     "C04": {"run": run_C04},
     "C05": {"run": run_C05},
     "C12": {"run": run_C12},
+    "C16": {"run": run_C16},
     "C11": {"run": run_C11},
     "C13": {"run": run_C13},
     "C07": {"run": run_C07},
